@@ -399,8 +399,9 @@ impl<'a> Minimiser<'a> {
                         break;
                     }
                 }
-                // zero bytes where possible
-                for i in 0..cur.len() {
+                // zero bytes where possible (small inputs only: every probe
+                // copies the whole input)
+                for i in 0..(if cur.len() <= 4096 { cur.len() } else { 0 }) {
                     if cur[i] != 0 {
                         let mut cand = cur.clone();
                         cand[i] = 0;
